@@ -30,6 +30,7 @@ import DPL.Proofs.ToolsNanAxis
 import DPL.Proofs.ToolsCompose
 import DPL.Proofs.ToolsCompose2
 import DPL.Proofs.ToolsComposeGeom
+import DPL.Proofs.KernelBridge
 
 namespace DPL.C07
 open DPL DPL.Tools
@@ -895,5 +896,135 @@ example : binOf [[(0 : ℝ), 1, 2]] [(1 : ℝ) / 2] ≠ binOf [[(0 : ℝ), 1, 2]
   rw [h1, h2]; simp
 
 end ToolDP
+
+/-! ## end_to_end — from the uniform draws of the samplers to the ε-DP of a tool's release
+
+The kernels of `ToolDP` (`PM.lapKernel`, `PM.truncLapKernel`, `PM.geomKernel`) are measures; C03 / C01 prove that the
+model's SAMPLERS, as functions of the uniforms they draw, have these laws.  Here the two are connected
+(`DPL/Proofs/KernelBridge.lean`): each kernel IS the push-forward of the uniform measure (`Smp.unif01x4` = four
+independent `random()` draws in the order drawn; `Discrete.unif01` = one draw) under the model's `randomise` function
+(`PM.lapSampler` = `Smp.laplace`, `PM.truncLapSampler` = `Smp.laplaceTruncated` = sampler then `_truncate`,
+`PM.geomSampler` = `Discrete.geomRandomise` then the clamp), for calls with `δ = 0` (the kernels use the scale `sens/ε`,
+which is the coded `sens/(ε − log(1−δ))` at `δ = 0` — all the tools pass `delta = 0`), `ε > 0`, `sens ≥ 0` and
+`lower ≤ upper`.  Consequently `mean`, `sum`, `count_nonzero` — clip, aggregate, sampler, truncation:
+`Tools.meanRun`, `Tools.sumRun`, `Tools.countRun`, functions of the data and of the uniform draws — are ε-DP with
+respect to the uniform measure on the draws: nothing between the random bits and the release is assumed.
+Trusted: that `random()` returns independent uniforms on `[0,1)`, and real arithmetic (C12/C19 for the floats). -/
+
+section EndToEnd
+open MeasureTheory
+open scoped DPL.PM
+
+/-- **`lapKernel` = law of `Laplace.randomise` on four uniforms** (C03 `laplace_mech_law` + `laplaceScale` at `δ = 0`) -/
+theorem lapKernel_eq_sampler_law (c : MechCall ℝ) (hε : 0 < c.eps) (hs : 0 ≤ c.sens) (hδ : c.delta = 0) (a : ℝ) :
+    PM.lapKernel c a = Smp.unif01x4.map (fun w : ℝ × ℝ × ℝ × ℝ =>
+      Smp.laplace c.eps c.delta c.sens a w.1 w.2.1 w.2.2.1 w.2.2.2) :=
+  PM.lapKernel_eq_sampler_law c hε hs hδ a
+
+/-- **`truncLapKernel` = law of `LaplaceTruncated.randomise`** (the sampler followed by the model's `_truncate`);
+`lower ≤ upper` is needed: `_truncate` and the clamp differ otherwise (`PM.truncate_ne_clamp_cex`) -/
+theorem truncLapKernel_eq_sampler_law (c : MechCall ℝ) (hε : 0 < c.eps) (hs : 0 ≤ c.sens) (hδ : c.delta = 0)
+    (hb : c.lower ≤ c.upper) (a : ℝ) :
+    PM.truncLapKernel c a = Smp.unif01x4.map (fun w : ℝ × ℝ × ℝ × ℝ =>
+      Smp.laplaceTruncated c.eps c.delta c.sens c.lower c.upper a w.1 w.2.1 w.2.2.1 w.2.2.2) :=
+  PM.truncLapKernel_eq_sampler_law c hε hs hδ hb a
+
+/-- non-vacuity: the call `_mean` configures for ε = 1, bounds (0, 1), two records -/
+example : let c : MechCall ℝ := ⟨"LaplaceTruncated", 1, 0, (1 - 0) / 2, 0, 1, .osCsprng⟩
+    0 < c.eps ∧ 0 ≤ c.sens ∧ c.delta = 0 ∧ c.lower ≤ c.upper := by
+  norm_num
+
+/-- **`geomKernel` = law of `Geometric.randomise`** (sensitivity 1, on `⌊a⌋`) on one uniform, then the clamp to the
+call's bounds; its unclamped atoms are C01's pmf (`PM.geomRandomise_atom`, from `Discrete.geom_law`) -/
+theorem geomKernel_eq_sampler_law (c : MechCall ℝ) (hε : 0 < c.eps) (a : ℝ) :
+    PM.geomKernel c a = Discrete.unif01.map (fun v : ℝ =>
+      max c.lower (min ((Discrete.geomRandomise c.eps 1 ⌊a⌋ v : ℤ) : ℝ) c.upper)) :=
+  PM.geomKernel_eq_sampler_law c hε a
+
+/-- the atoms of `Geometric.randomise(x)` under `unif01`: `(1−r)/(1+r)·r^|k|` at `x + k`, `r = e^{−ε}` -/
+theorem geom_sampler_atoms (ε : ℝ) (hε : 0 < ε) (x k : ℤ) :
+    Discrete.unif01 ((Discrete.geomRandomise ε 1 x) ⁻¹' {x + k})
+      = ENNReal.ofReal ((1 - Real.exp (-ε)) / (1 + Real.exp (-ε)) * Real.exp (-ε) ^ k.natAbs) :=
+  PM.geomRandomise_atom ε hε x k
+
+/-- the output law of the mean / sum / count_nonzero plans under the kernels is the law of the run under the draws -/
+theorem tool_law_eq_run (n : ℕ) (ε l u : ℝ) (hε : 0 < ε) (h : l ≤ u) (D : List ℝ) :
+    (meanPlan n ε l u).law PM.truncLapKernel D = Smp.unif01x4.map (Tools.meanRun n ε l u D) ∧
+    (sumPlan n ε l u).law PM.truncLapKernel D = Smp.unif01x4.map (Tools.sumRun n ε l u D) ∧
+    (countNonzeroPlan n ε).law PM.geomKernel D = Discrete.unif01.map (Tools.countRun n ε D) :=
+  ⟨Tools.meanPlan_law_eq_run n ε l u hε h D, Tools.sumPlan_law_eq_run n ε l u hε h D,
+    Tools.countNonzeroPlan_law_eq_run n ε hε D⟩
+
+/-- **`mean`, from uniform draws to the release, is ε-DP**: for neighbouring arrays and every measurable `S`, the
+probability — over the four uniforms `Laplace._laplace_sampler` draws — that
+`LaplaceTruncated(ε, 0, (u−l)/n, l, u).randomise(mean(clip(D)))` lands in `S` moves by at most `e^ε` -/
+theorem mean_tool_end_to_end (ε l u : ℝ) (hε : 0 < ε) (h : l ≤ u) (pre post : List ℝ) (x y : ℝ)
+    (S : Set ℝ) (hS : MeasurableSet S) :
+    Smp.unif01x4 (Tools.meanRun (pre ++ x :: post).length ε l u (pre ++ x :: post) ⁻¹' S) ≤
+      ENNReal.ofReal (Real.exp ε) *
+        Smp.unif01x4 (Tools.meanRun (pre ++ x :: post).length ε l u (pre ++ y :: post) ⁻¹' S) := by
+  have key := mean_tool_dp_laplace ε l u hε h pre post x y S hS
+  rw [Tools.meanPlan_law_eq_run _ ε l u hε h, Tools.meanPlan_law_eq_run _ ε l u hε h,
+    Measure.map_apply (Tools.measurable_meanRun _ _ _ _ _) hS,
+    Measure.map_apply (Tools.measurable_meanRun _ _ _ _ _) hS] at key
+  exact key
+
+/-- non-vacuity: ε = 1, bounds (0, 1), `[0, 1]` vs `[1, 1]`; and the run is the code's formula (all four uniforms 0:
+no noise, the clipped mean is released) -/
+example (S : Set ℝ) (hS : MeasurableSet S) :
+    Smp.unif01x4 (Tools.meanRun 2 1 0 1 [0, 1] ⁻¹' S) ≤
+      ENNReal.ofReal (Real.exp 1) * Smp.unif01x4 (Tools.meanRun 2 1 0 1 [1, 1] ⁻¹' S) := by
+  have := mean_tool_end_to_end 1 0 1 (by norm_num) (by norm_num) [] [1] 0 1 S hS
+  simpa using this
+
+example : Tools.meanRun 2 1 0 1 [0, 1] (0, 0, 0, 0) = 1 / 2 := by
+  norm_num [Tools.meanRun, Smp.laplaceTruncated, Smp.laplace, Smp.lap4, Smp.truncate, Tools.mean, Tools.sum,
+    Tools.clip]
+
+/-- **`sum`, from uniform draws to the release, is ε-DP** -/
+theorem sum_tool_end_to_end (ε l u : ℝ) (hε : 0 < ε) (h : l ≤ u) (pre post : List ℝ) (x y : ℝ)
+    (S : Set ℝ) (hS : MeasurableSet S) :
+    Smp.unif01x4 (Tools.sumRun (pre ++ x :: post).length ε l u (pre ++ x :: post) ⁻¹' S) ≤
+      ENNReal.ofReal (Real.exp ε) *
+        Smp.unif01x4 (Tools.sumRun (pre ++ x :: post).length ε l u (pre ++ y :: post) ⁻¹' S) := by
+  have key := sum_tool_dp_laplace ε l u hε h pre post x y S hS
+  rw [Tools.sumPlan_law_eq_run _ ε l u hε h, Tools.sumPlan_law_eq_run _ ε l u hε h,
+    Measure.map_apply (Tools.measurable_sumRun _ _ _ _ _) hS,
+    Measure.map_apply (Tools.measurable_sumRun _ _ _ _ _) hS] at key
+  exact key
+
+example (S : Set ℝ) (hS : MeasurableSet S) :
+    Smp.unif01x4 (Tools.sumRun 2 1 0 1 [0, 1] ⁻¹' S) ≤
+      ENNReal.ofReal (Real.exp 1) * Smp.unif01x4 (Tools.sumRun 2 1 0 1 [1, 1] ⁻¹' S) := by
+  have := sum_tool_end_to_end 1 0 1 (by norm_num) (by norm_num) [] [1] 0 1 S hS
+  simpa using this
+
+/-- **`count_nonzero`, from the uniform draw to the release, is ε-DP**: the probability — over the uniform
+`Geometric.randomise` draws — that `GeometricTruncated(ε, 1, 0, n).randomise(count)` lands in `S` moves by at most `e^ε` -/
+theorem count_tool_end_to_end (ε : ℝ) (hε : 0 < ε) (pre post : List ℝ) (x y : ℝ) (S : Set ℝ)
+    (hS : MeasurableSet S) :
+    Discrete.unif01 (Tools.countRun (pre ++ x :: post).length ε (pre ++ x :: post) ⁻¹' S) ≤
+      ENNReal.ofReal (Real.exp ε) *
+        Discrete.unif01 (Tools.countRun (pre ++ x :: post).length ε (pre ++ y :: post) ⁻¹' S) := by
+  have key := count_tool_dp_geometric ε hε pre post x y S hS
+  rw [Tools.countNonzeroPlan_law_eq_run _ ε hε, Tools.countNonzeroPlan_law_eq_run _ ε hε,
+    Measure.map_apply_of_aemeasurable (Tools.aemeasurable_countRun _ ε hε _) hS,
+    Measure.map_apply_of_aemeasurable (Tools.aemeasurable_countRun _ ε hε _) hS] at key
+  exact key
+
+/-- the run in `count_tool_end_to_end` is C01's model of `GeometricTruncated.randomise` (integer `_truncate` with the
+bounds `0`, `n`; `Discrete.geomTruncRandomise`) applied to the count, embedded in the reals -/
+theorem count_run_is_model (n : ℕ) (ε : ℝ) (D : List ℝ) (v : ℝ) :
+    Tools.countRun n ε D v = (((Discrete.geomTruncRandomise ε 1 (.half (2 * 0)) (.half (2 * (n : ℤ)))
+      ⌊Tools.sum (D.map (fun x => if eqv x 0 then (0 : ℝ) else 1))⌋ v).getD 0 : ℤ) : ℝ) :=
+  Tools.countRun_eq_model n ε D v
+
+example (S : Set ℝ) (hS : MeasurableSet S) :
+    Discrete.unif01 (Tools.countRun 2 1 [0, 3] ⁻¹' S) ≤
+      ENNReal.ofReal (Real.exp 1) * Discrete.unif01 (Tools.countRun 2 1 [5, 3] ⁻¹' S) := by
+  have := count_tool_end_to_end 1 (by norm_num) [] [3] 0 5 S hS
+  simpa using this
+
+end EndToEnd
 
 end DPL.C07
